@@ -143,6 +143,33 @@ class Impl:
                 except Exception:
                     pass
             self.cfg.attach_protocol(self.st.proto)
+        elif case.get('mid'):
+            # Tor's configuration changes while the view is being built: `case['store']` is what Tor has afterwards, `mid['old']` what
+            # some options held until the change — announced (CONF_CHANGED) after `mid['after']` options have been asked for
+            mid = case['mid']
+            final = {k: list(self.st.store.get(k, [])) for k in mid['old']}
+            for k, vals in mid['old'].items():
+                self.st.store[k] = list(vals)
+            self.st.hold_prefixes.add('GETCONF')
+            self.cfg = TorConfig(self.st.proto)
+            n = 0
+            announced = False
+            for _ in range(10000):
+                if n == mid['after'] and not announced:
+                    announced = True
+                    lines = []
+                    for k, vals in final.items():
+                        self.st.store[k] = list(vals)
+                        if not vals:
+                            lines.append(k)
+                        for v in vals:
+                            lines.append('%s=%s' % (k, v))
+                    self.st.send('650-CONF_CHANGED\r\n' + ''.join('650-%s\r\n' % l for l in lines) + '650 OK\r\n')
+                if self.st.release('GETCONF') is None:
+                    break
+                n += 1
+            self.st.hold_prefixes.discard('GETCONF')
+            assert announced, 'the change was never announced (fewer options than mid.after)'
         else:
             self.cfg = TorConfig(self.st.proto)
         assert self.cfg.post_bootstrap.called, 'config bootstrap did not finish'
